@@ -70,3 +70,12 @@ claim("C13", "model_checking",
       "must lie inside that view; after close/free data/position operations must raise.",
       "Reference = bounded file with Python seek semantics; positions < 0 constrain only confinement; fake controller = byte array.",
       "DESIGN.md section 4, C13")
+claim("C08", "model_checking",
+      "Definition/value/layout histories in canonical form run on the real BitField: every hierarchy of <=4 (thorough 5) fields (scope = "
+      "root, f=v chains, conjunctions) x length specs x bit-field lengths tight-1/tight/tight+1; explicit positions (all starts incl. "
+      "-1 and L, lengths <=3, L<=5); tag sets over 3 scope levels (incl. a shared set object); every interleaving of define / give "
+      "value / assign_fields for <=3 fields; large values. In every final state all complete value assignments are swept: disjoint "
+      "in-range fields, width >= values, read-back, mask = union, tag masks and closure, pairwise non-matching keys; assignment "
+      "failures are judged with a backtracking layout search and a reference first-fit (completeness clause).",
+      "Canonical identifier order; condition values {0,1}; hierarchies the implementation's tree can express.",
+      "DESIGN.md section 4, C08")
